@@ -42,6 +42,7 @@ def jobs(tier):
     add("BBS", "B", schedule={"2020": "fifo", "2021": "hifo"}, years=(2020, 2021))
     add("BS", "B", schedule={"2019": "hifo"}, config_schedule=True)  # [accounting_methods] section with a single year
     add("BBS", "B", uid="same")
+    add("BFS", "B")  # a fee-only out-transaction between purchases and a sale: running sums of the out-flow table
     add("BII", "B")  # two income events of one type, free to share their instant: adjacent rows of the detail table
     add("BBB", "B", accounts="abc")  # accounts X1/H1, X1/H2, X2/H1: one holder's accounts are not adjacent in exchange order  # partial fills sharing one order id: several transactions of one asset with the same unique id
     if tier == "thorough":
